@@ -266,10 +266,13 @@ def r2_entry_point_status(ctx: Ctx) -> None:
                 ctx.check(handler_disposition(fn, t, h) in ("reraise", "return-nonzero"), f"{q}:except {unparse(h.type)}", "no handler converts a failure into the normal return")
     cli = ctx.repo.func("a816.cli", "cli_main")
     exits = [c for c in calls_in(cli.node) if call_name(c) == "sys.exit"]
-    ok = len(exits) == 1 and len(exits[0].args) == 1 and isinstance(exits[0].args[0], ast.Name)
+    ok = len(exits) == 1 and len(exits[0].args) == 1
     if ok:
-        var = exits[0].args[0].id  # type: ignore[union-attr]
-        dnodes = [s.value for s in walk_no_nested(cli.node) if isinstance(s, ast.Assign) and unparse(s.targets[0]) == var]
+        if isinstance(exits[0].args[0], ast.Name):
+            var = exits[0].args[0].id
+            dnodes = [s.value for s in walk_no_nested(cli.node) if isinstance(s, ast.Assign) and unparse(s.targets[0]) == var]
+        else:
+            dnodes = [exits[0].args[0]]  # sys.exit(<the call itself>)
         defs = [unparse(d) for d in dnodes]
         ok = len(defs) >= 1 and all(d.startswith("program.assemble_as_patch(") or d.startswith("program.assemble(") for d in defs)
         if not ok and dnodes and all(isinstance(d, ast.Call) and (isinstance(d.func, (ast.Name, ast.Subscript, ast.Call)) and (call_name(d) or "") not in ("int", "bool")) for d in dnodes):
